@@ -6,7 +6,15 @@ Lexical choices (`lex`, every key optional, default = what CANdb++ writes):
   eol        '\n' | '\r\n'
   sp.<KW>    number of blanks where one blank separates two tokens of a <KW> statement (1..3); KW in BO_ SG_ BO_TX_BU_ CM_ BA_DEF_
              BA_DEF_DEF_ BA_ VAL_ SIG_GROUP_ SIG_VALTYPE_ SG_MUL_VAL_ BU_
-  colon      'tight' (Name: 8) | 'spaced' (Name : 8)  in BO_ lines
+  colon      'tight' (Name: 8) | 'spaced' (Name : 8) | 'none' (Name:8) | 'left' (Name :8)   in BO_ lines
+  Blanks at the separators INSIDE a statement are varied exactly where one of the reader's own sibling patterns (or its post-processing)
+  already tolerates them, so that inconsistencies between siblings show (plain vs multiplexed SG_, BO_ vs SIG_GROUP_/SIG_VALTYPE_ colons, ...):
+  sg.colon   ' : ' (CANdb++) | ': ' | ':' | ' :'      after the signal name / multiplexer token
+  sg.paren   blank between `@1+` and `(`: None = like sp.SG_ | 0 ;  sg.bracket  blank between `)` and `[`: None | 0
+  sg.comma   '' | ' '  after the comma of (factor,offset) ;  recvsep ',' | ', ' between receivers ;  txsep ',' | ', ' in BO_TX_BU_
+  tx.colon / vt.colon / grp.colon   ' : ' | ': ' | ':' | ' :'   in BO_TX_BU_, SIG_VALTYPE_, SIG_GROUP_
+  enumsep    ',' | ', '  between the values of an ENUM definition ;  muldash '-' | ' - ' inside SG_MUL_VAL_ ranges
+  Not varied (no pattern of the reader and no tool known to me has blanks there): inside `start|size@1+`, inside `[min|max]`, `BU_:`/`BS_:`.
   indent     leading blanks of SG_ lines: ' ' | '' | '  '
   semi       blank before the closing ';'  (False|True)
   trail      trailing blank at line ends (False|True)
@@ -24,8 +32,10 @@ import netdesc
 from netdesc import render_number, plain
 
 CANON = {"eol": "\n", "colon": "tight", "indent": " ", "semi": False, "trail": False, "blank": 1, "ns": "empty",
-         "num.scale": "plain", "num.limit": "plain", "num.attr": "plain", "mulsep": ", ", "txfirst": True}
-KWS = ["BU_", "BO_", "SG_", "BO_TX_BU_", "CM_", "BA_DEF_", "BA_DEF_DEF_", "BA_", "VAL_", "SIG_GROUP_", "SIG_VALTYPE_", "SG_MUL_VAL_"]
+         "num.scale": "plain", "num.limit": "plain", "num.attr": "plain", "mulsep": ", ", "txfirst": True,
+         "sg.colon": " : ", "sg.paren": None, "sg.bracket": None, "sg.comma": "", "recvsep": ",", "txsep": ",", "tx.colon": " : ",
+         "vt.colon": " : ", "grp.colon": " : ", "enumsep": ",", "muldash": "-"}
+KWS = ["BU_", "VAL_TABLE_", "BO_", "SG_", "BO_TX_BU_", "CM_", "BA_DEF_", "BA_DEF_DEF_", "BA_", "VAL_", "SIG_GROUP_", "SIG_VALTYPE_", "SG_MUL_VAL_"]
 ORDERS = ["BO_", "SG_", "CM_", "BA_DEF_", "BA_DEF_DEF_", "BA_", "VAL_", "BO_TX_BU_", "SG_MUL_VAL_"]
 for _k in KWS:
     CANON["sp." + _k] = 1
@@ -49,7 +59,19 @@ def random_lex(rng):
     maybe("eol", ["\r\n"])
     for k in KWS:
         maybe("sp." + k, [2, 3], 0.2)
-    maybe("colon", ["spaced"])
+    maybe("colon", ["spaced", "none", "left"])
+    colons = [": ", ":", " :"]
+    maybe("sg.colon", colons, 0.3)
+    maybe("sg.paren", [0], 0.2)
+    maybe("sg.bracket", [0], 0.2)
+    maybe("sg.comma", [" "], 0.3)
+    maybe("recvsep", [", "], 0.25)
+    maybe("txsep", [", "], 0.25)
+    maybe("tx.colon", colons, 0.3)
+    maybe("vt.colon", colons, 0.3)
+    maybe("grp.colon", colons, 0.3)
+    maybe("enumsep", [", "], 0.25)
+    maybe("muldash", [" - "], 0.2)
     maybe("indent", ["", "  "])
     maybe("semi", [True], 0.2)
     maybe("trail", [True], 0.2)
@@ -103,12 +125,17 @@ def render(desc, lex=None, encoding="iso-8859-1"):
     s = sp("BU_")
     section(["BU_:" + "".join(s + e["name"] for e in desc["ecus"])])
 
+    # ---- global value tables ----
+    s = sp("VAL_TABLE_")
+    section(["VAL_TABLE_" + s + name + "".join(s + str(k) + s + '"' + l + '"' for k, l in sorted(tab.items(), reverse=True)) + semi
+             for name, tab in desc.get("value_tables", {}).items()])
+
     # ---- messages ----
     for fr in order("BO_", desc["frames"]):
         s = sp("BO_")
         tx = fr["senders"][0] if (fr["senders"] and lx["txfirst"]) else "Vector__XXX"
-        colon = ":" if lx["colon"] == "tight" else " :"
-        ls = ["BO_" + s + str(can_id(fr)) + s + fr["name"] + colon + s + str(fr["length"]) + s + tx]
+        colon = {"tight": ":" + s, "spaced": " :" + s, "none": ":", "left": " :"}[lx["colon"]]
+        ls = ["BO_" + s + str(can_id(fr)) + s + fr["name"] + colon + str(fr["length"]) + s + tx]
         s = sp("SG_")
         for sg in order("SG_", fr["signals"]):
             m = ""
@@ -119,9 +146,12 @@ def render(desc, lex=None, encoding="iso-8859-1"):
                     m = s + "m%d" % sg["mux"]["selector"]
             bo = "1" if sg["byte_order"] == "intel" else "0"
             sign = "-" if sg["type"] == "signed" else "+"
-            rec = ",".join(sg["receivers"]) if sg["receivers"] else "Vector__XXX"
-            ls.append(lx["indent"] + "SG_" + s + sg["name"] + m + s + ":" + s + "%d|%d@%s%s" % (sg["start"], sg["width"], bo, sign) + s
-                      + "(" + render_number(sg["factor"], lx["num.scale"]) + "," + render_number(sg["offset"], lx["num.scale"]) + ")" + s
+            rec = lx["recvsep"].join(sg["receivers"]) if sg["receivers"] else "Vector__XXX"
+            colon = lx["sg.colon"] if lx["sg.colon"] != " : " else s + ":" + s
+            s_paren = s if lx["sg.paren"] is None else " " * lx["sg.paren"]
+            s_brack = s if lx["sg.bracket"] is None else " " * lx["sg.bracket"]
+            ls.append(lx["indent"] + "SG_" + s + sg["name"] + m + colon + "%d|%d@%s%s" % (sg["start"], sg["width"], bo, sign) + s_paren
+                      + "(" + render_number(sg["factor"], lx["num.scale"]) + "," + lx["sg.comma"] + render_number(sg["offset"], lx["num.scale"]) + ")" + s_brack
                       + "[" + render_number(sg["min"], lx["num.limit"]) + "|" + render_number(sg["max"], lx["num.limit"]) + "]" + s
                       + '"' + sg["unit"] + '"' + s + rec)
         section(ls)
@@ -132,7 +162,8 @@ def render(desc, lex=None, encoding="iso-8859-1"):
     for fr in order("BO_TX_BU_", desc["frames"]):
         need = len(fr["senders"]) > 1 or (fr["senders"] and not lx["txfirst"])
         if need:
-            ls.append("BO_TX_BU_" + s + str(can_id(fr)) + s + ":" + s + ",".join(fr["senders"]) + semi)
+            colon = lx["tx.colon"] if lx["tx.colon"] != " : " else s + ":" + s
+            ls.append("BO_TX_BU_" + s + str(can_id(fr)) + colon + lx["txsep"].join(fr["senders"]) + semi)
     section(ls)
 
     # ---- comments ----
@@ -166,7 +197,7 @@ def render(desc, lex=None, encoding="iso-8859-1"):
         elif d["type"] == "STRING":
             body = "STRING"
         else:
-            body = "ENUM" + s + ",".join('"' + v + '"' for v in d["values"])
+            body = "ENUM" + s + lx["enumsep"].join('"' + v + '"' for v in d["values"])
         ls.append(head + body + semi)
     section(order("BA_DEF_", ls))
     s = sp("BA_DEF_DEF_")
@@ -225,14 +256,18 @@ def render(desc, lex=None, encoding="iso-8859-1"):
     ls = []
     for fr in desc["frames"]:
         for g in fr.get("groups", []):
-            ls.append("SIG_GROUP_" + s + str(can_id(fr)) + s + g["name"] + s + str(g["repetitions"]) + s + ":" + "".join(s + n for n in g["signals"]) + semi)
+            colon = {" : ": s + ":", ": ": ":", ":": ":", " :": s + ":"}[lx["grp.colon"]]
+            first = "" if lx["grp.colon"] in (":", " :") else s
+            ls.append("SIG_GROUP_" + s + str(can_id(fr)) + s + g["name"] + s + str(g["repetitions"]) + colon
+                      + first + s.join(g["signals"]) + semi)
     section(ls)
     s = sp("SIG_VALTYPE_")
     ls = []
     for fr in desc["frames"]:
         for sg in fr["signals"]:
             if sg["type"] == "float":
-                ls.append("SIG_VALTYPE_" + s + str(can_id(fr)) + s + sg["name"] + s + ":" + s + ("1" if sg["width"] == 32 else "2") + semi)
+                colon = lx["vt.colon"] if lx["vt.colon"] != " : " else s + ":" + s
+                ls.append("SIG_VALTYPE_" + s + str(can_id(fr)) + s + sg["name"] + colon + ("1" if sg["width"] == 32 else "2") + semi)
     section(ls)
     s = sp("SG_MUL_VAL_")
     ls = []
@@ -240,7 +275,7 @@ def render(desc, lex=None, encoding="iso-8859-1"):
         for sg in fr["signals"]:
             if sg["mux"] and sg["mux"]["role"] == "muxed" and sg["mux"].get("ranges"):
                 ls.append("SG_MUL_VAL_" + s + str(can_id(fr)) + s + sg["name"] + s + sg["mux"]["muxer"] + s
-                          + lx["mulsep"].join("%d-%d" % r for r in sg["mux"]["ranges"]) + semi)
+                          + lx["mulsep"].join(("%d" + lx["muldash"] + "%d") % r for r in sg["mux"]["ranges"]) + semi)
     section(order("SG_MUL_VAL_", ls))
 
     out = []
